@@ -45,15 +45,33 @@ def full_stage(chk, pid, tier, seed):
             opts["constraints"]["disable"]["start_time_windows"] = False
             meta["t%d" % i] = (inp, opts)
             blocks.append(("t%d" % i, GF.case_lines(inp, opts, {"iterations": 60, "duration_ms": 2500, "runs": 1, "starts": 1, "output": 2})))
+    if pid == "C03":
+        # relations declared from the successor's side (succeeds), most of them direct, in chains and in DAGs
+        for i in range(80 if tier == "quick" else 2500):
+            inp, opts, feats = GF.gen_full(rng, "small" if i % 3 else "medium",
+                                           force={"precedence": True, "dag": i % 2 == 0, "direct_p": 0.6, "succ_p": 0.8, "mixing": False})
+            meta["t%d" % i] = (inp, opts)
+            blocks.append(("t%d" % i, GF.case_lines(inp, opts, {"iterations": 60, "duration_ms": 2500, "runs": 1, "starts": 1, "output": 2})))
     if pid == "C05":
         # objective terms that the general stream seldom switches on: capacity excess as an objective (constraint off for one or
         # all resources), min-stops shortfall, stop balance
         for i in range(80 if tier == "quick" else 2500):
-            inp, opts, feats = GF.gen_full(rng, "small" if i % 3 else "medium", force={"capacity": True, "capacity_objective": 0.8, "minstops": True})
+            force = {"capacity": True, "capacity_objective": 0.8, "minstops": True}
+            if i % 2:
+                # more picked up than dropped, small vehicles, the constraint off: routes that END above the capacity
+                force.update(overload=True, capacity_objective=1.0, alternates=False)
+            inp, opts, feats = GF.gen_full(rng, "small" if i % 3 else "medium", force=force)
             opts["objectives"]["min_stops"] = 1.0
             opts["objectives"]["stop_balance"] = rng.choice([0.0, 1.0, 2.5])
             meta["t%d" % i] = (inp, opts)
             blocks.append(("t%d" % i, GF.case_lines(inp, opts, {"iterations": 100, "duration_ms": 2500, "runs": 1, "starts": 1, "output": 2})))
+    if pid == "C05":
+        # ... and plain inputs on which every stop gets planned and routes END above the capacity (excess at every position of the
+        # route, the vehicle's own start and end included)
+        for i in range(60 if tier == "quick" else 1500):
+            inp, opts = GF.gen_overload(rng)
+            meta["o%d" % i] = (inp, opts)
+            blocks.append(("o%d" % i, GF.case_lines(inp, opts, {"iterations": 60, "duration_ms": 2500, "runs": 1, "starts": 1, "output": 2})))
     res = CR.run_crash(blocks, "%s_full_%s" % (pid.lower(), tier), timeout=3000)
     nout = nviol = 0
     for cid, r in res.items():
@@ -325,6 +343,18 @@ def run(pid, tier, seed, oracle_names, title, feats=None, check_c07=False, extra
     nops = 30 if tier == "quick" else 60
     size = "small" if tier == "quick" else "medium"
     cases = E.make_cases(seed * 1009 + int(pid[1:]), nh, size=size, nops=nops, feats=feats, mode=mode)
+    if pid == "C04":
+        # the solver's own cycle - copy, then un-plan on the copy - on units with several stops and several allowed orders; half of
+        # the histories on one long route with nothing that rejects a move, so that a unit's stops end up apart and out of model order
+        long_route = dict(one_vehicle=True, capacity=False, windows=False, maxstops=False, maxdist=False, attrs=False,
+                          maxwait_stop=False, maxwait_veh=False, endtime=False, maxdur=False)
+        cu = E.make_cases(seed * 1009 + 4044, nh // 2, size=size, nops=nops, mode="copy_unplan",
+                          feats=dict(feats or {}, precedence=True, groups=False, initial=False))
+        cu += E.make_cases(seed * 1009 + 4045, nh, size="medium", nops=40, mode="copy_unplan",
+                           feats=dict(feats or {}, precedence=True, groups=False, initial=False, **long_route))
+        for k, c in enumerate(cu):
+            c["id"] = "cu%d" % k
+        cases += cu
     if pid == "C19":
         # the caller may declare that travel durations satisfy the triangle inequality (API only; the latest-start / latest-end
         # exact checks are then switched off and the estimates trusted): metric models without duration groups / multipliers, where
